@@ -144,6 +144,7 @@ func genC18(g *Gen, idx int) *Plan {
 	}
 	// a call released by its gate event may overtake the timer goroutine parked inside timeout()
 	cfg.Sched.Overlap = g.Bool(0.7)
+	cfg.Sched.Sticky = []float64{0, 0, 0.7, 0.95}[g.Intn(4)]
 	delays := []int64{0, 1, 1000, 1e6, 1e9}
 	tx := &TXPlan{Kind: []string{"retry", "timed"}[g.Intn(2)], DelayNs: delays[g.Intn(len(delays))], Count: uint(g.Intn(4))}
 	if g.Bool(0.15) {
@@ -532,6 +533,7 @@ func genC29(g *Gen, idx int) *Plan {
 	default:
 		cfg.Sched = simrt.SchedCfg{Focus: []string{"util/id_sequence.go", "transactions/transaction_store.go", "util/client_state.go"}, FocusDensity: 1}
 	}
+	cfg.Sched.Sticky = []float64{0, 0, 0.7, 0.95}[g.Intn(4)]
 	tx := &TXPlan{Kind: []string{"idseq", "idseq", "store", "state"}[g.Intn(4)]}
 	nth := int(g.Range(2, 4))
 	nops := int(g.Range(2, 6))
